@@ -304,8 +304,14 @@ func (p c09) runRedis(t *testing.T, sc *C09Scenario) harness.Outcome {
 		}
 		if sc.Action == "limit" {
 			want := int(rs.Env.ConnLimit)
-			if len(rs.Conns) < want {
-				want = len(rs.Conns)
+			arrivals := 0
+			for _, c := range w.env.Clients {
+				if c.Connected {
+					arrivals++
+				}
+			}
+			if arrivals < want {
+				want = arrivals
 			}
 			served := 0
 			for _, c := range w.env.Clients {
@@ -332,7 +338,7 @@ func (p c09) runRedis(t *testing.T, sc *C09Scenario) harness.Outcome {
 				return nil
 			}
 			for _, c := range w.env.Clients {
-				if c.Connected && c.Name != "late" && (c.EOF || c.Reset) && c.Replies < len(c.Sent) {
+				if c.Connected && c.Accepted() && c.Name != "late" && (c.EOF || c.Reset) && c.Replies < len(c.Sent) {
 					return &simrt.Violation{Clause: "drain-keeps-established", Detail: fmt.Sprintf("connection %s, established before StopListen, was closed by the proxy with %d of %d requests answered", c.Name, c.Replies, len(c.Sent))}
 				}
 			}
